@@ -151,7 +151,7 @@ var (
 //@ trusted NOT PROVED: pure classification of an error value
 
 //@ func makeStructArshaler$3
-//@ property C19
+//@ property C19 C08
 //@ assertions-only reflection closure: only the restoration of the per-field tag flags on the error exits is decided
 //@ requires dec != nil && uo != nil
 //@ modifies everything
